@@ -47,7 +47,7 @@ import (
 )
 
 func init() {
-	components["wshandshake"] = &component{gen: wshsGen, enum: wshsEnum, run: wshsRun}
+	components["wshandshake"] = &component{gen: wshsGen, enum: wshsEnum, run: wshsRun, direct: wshsDirect}
 }
 
 var wshsSeenKeys = map[string]bool{}
